@@ -148,6 +148,39 @@ func runR152(c *Ctx) {
 				}
 			}
 		})
+		// the wrapped buffer must never leave the decorator bare
+		escaped := false
+		allInstrs(fn, func(ins ssa.Instruction) {
+			v, ok := ins.(ssa.Value)
+			if !ok || escaped {
+				return
+			}
+			f, base := loadedField(v)
+			if f == nil || f.Name() != "base" || !isReceiverValue(fn, base) || v.Referrers() == nil {
+				return
+			}
+			for _, r := range *v.Referrers() {
+				if _, isDbg := r.(*ssa.DebugRef); isDbg {
+					continue
+				}
+				if cl, isCall := r.(*ssa.Call); isCall && cl.Call.IsInvoke() && cl.Call.Value == v {
+					usedAsArg := false
+					for _, a := range cl.Call.Args {
+						if a == v {
+							usedAsArg = true
+						}
+					}
+					if !usedAsArg {
+						continue
+					}
+				}
+				escaped = true
+				c.Fail(name, "awaits-task", c.Pos(r.Pos()), "the wrapped buffer (base) is handed on without this decorator: whoever consumes it neither waits for the background task nor sees its error – the buffer reports completion while the task (e.g. the replication into the other backend) is still running")
+			}
+		})
+		if escaped {
+			continue
+		}
 		if len(baseUses) == 0 {
 			// (i) does not touch base, or (iv) hands the receiver on
 			c.Pass(name, "awaits-task", c.Pos(fn.Pos()), "does not use the wrapped buffer directly")
